@@ -13,6 +13,8 @@ import (
 func TestWorker(t *testing.T) {
 	logrus.SetOutput(io.Discard)
 	kernel.WorkerMain(t, map[string]kernel.CheckFn{
-		"C35": checkC35(t),
+		"C35":  checkC35(t),
+		"C38b": checkC38b(t),
+		"C37b": checkC37b(t),
 	})
 }
